@@ -146,6 +146,20 @@ class C19(E1Prop):
     def next_op(self, w, rng, step, nsteps):
         tier = getattr(self, 'tier', 'quick')
         maxp = 2 if tier == 'quick' else 6
+        if getattr(self, 'script', None):
+            return self.script.pop(0)
+        if step >= 4 and rng.random() < 0.08:
+            p = self.gen.pick_pr(w)
+            if p is not None:
+                # the author closes the PR and deletes (or not) the branch
+                # before the robot gets to see the event
+                self.script = [{'op': 'eval', 'p': p, 'dt': 1},
+                               {'op': 'decline', 'p': p, 'dt': 5}]
+                if rng.random() < 0.6:
+                    self.script.append({'op': 'delete_src', 'p': p,
+                                        'dt': 1})
+                self.script.append({'op': 'deliver_all', 'dt': 5})
+                return self.script.pop(0)
         if step >= 3 and self.nprobes < maxp and rng.random() < 0.15:
             self.nprobes += 1
             return {'op': 'probe', 'pick': rng.randrange(10 ** 9), 'dt': 1}
@@ -269,6 +283,38 @@ class C19(E1Prop):
                             'PR #%d was declined and cleaned up but its '
                             'integration PRs %s are still open' % (
                                 pid, [c['id'] for c in open_kids]), {})
+        # an evaluation of a declined parent that ends quietly must have
+        # left nothing of it behind
+        if rec['job'].startswith('pr:') and not rec['killed'] and \
+                rec['status'] in ('PullRequestDeclined', 'NothingToDo'):
+            pid = int(rec['job'].split(':')[1])
+            p = table.get(pid)
+            if p and p['author'] == ROBOT:
+                m = re.search(r'PR#(\d+) ', p['title'])
+                p = table.get(int(m.group(1))) if m else None
+            if p and p['author'] != ROBOT and p['state'] == 'DECLINED':
+                from .c12 import hold_of, is_foreign
+                held = hold_of(w, dict(p, state='OPEN'),
+                               {k: ('OPEN' if k == p['id'] else v)
+                                for k, v in w.pr_states().items()})
+                others = [q for q in table.values()
+                          if q['id'] != p['id'] and q['src'] == p['src'] and
+                          q['author'] != ROBOT]
+                if held is None and not others:
+                    left = [r for r in after if r.startswith('w/') and
+                            r.endswith('/' + p['src'])]
+                    kids = [c['id'] for c in table.values()
+                            if c['author'] == ROBOT and c['state'] == 'OPEN'
+                            and ('PR#%d ' % p['id']) in c['title']]
+                    if left or kids:
+                        raise Violation(
+                            'C19', 'C19:declined-parent-not-cleaned:%s' %
+                            rec['status'],
+                            'PR #%d is declined; its evaluation ended %s '
+                            'but integration branches %s / open integration '
+                            'PRs %s remain' % (p['id'], rec['status'], left,
+                                               kids), {})
+                    w.probe('declined-parent-clean')
         # merging removes the integration branches
         for i, st in rec['prs_after'].items():
             if st == 'MERGED' and rec['prs_before'].get(i) == 'OPEN':
